@@ -19,6 +19,9 @@ func init() {
 
 // labelings returns copies of body with every subset of <= max labels placed
 // on distinct non-root nodes (labels x, y in pre-order).
+// sameNameMaxNodes bounds the bodies that also get same-name label pairs.
+var sameNameMaxNodes = 4
+
 func labelings(body *peg.Expr, max int) []*peg.Expr {
 	nodes := peg.Nodes(body)
 	var cand []int
@@ -40,6 +43,16 @@ func labelings(body *peg.Expr, max int) []*peg.Expr {
 				e = peg.ReplaceNth(e, chosen[k], func(x *peg.Expr) *peg.Expr { return peg.Label(name, x) })
 			}
 			out = append(out, e)
+			// the same name bound in two nested scopes (an inner binding must not be visible outside)
+			if len(chosen) == 2 && len(nodes) <= sameNameMaxNodes {
+				e2 := body
+				for k := len(chosen) - 1; k >= 0; k-- {
+					e2 = peg.ReplaceNth(e2, chosen[k], func(x *peg.Expr) *peg.Expr { return peg.Label("x", x) })
+				}
+				if !peg.SameScopeDup(e2) {
+					out = append(out, e2)
+				}
+			}
 		}
 		if len(chosen) == max {
 			return
@@ -121,6 +134,7 @@ func runC02(c *ShardCtx) {
 	n := 4
 	if c.Thorough() {
 		n = 5
+		sameNameMaxNodes = 5
 	}
 	leaves := []*peg.Expr{peg.Lit("a"), peg.Cls(false, false, "a", "b"), peg.Any(), peg.Lit("é"), peg.AndCode(0), peg.NotCode(0), peg.StateCode(0)}
 	en := peg.NewEnumerator(peg.Alphabet{Leaves: leaves, Unary: allUnary, Seq: true, Choice: true, MaxArity: 3})
